@@ -3,6 +3,7 @@ import FluteModel.Lemmas.DrainObj
 import FluteModel.Lemmas.ObjRecvTotal
 import FluteModel.Lemmas.ObjRecvPanicFree
 import FluteModel.Lemmas.DrvOrecvDzOK
+import FluteModel.Lemmas.ObjSessTotal
 /-
   Object-level part of C04 (untrusted input: no packet sequence can panic or hang the receiver).
   Owner of C04 (props.d, parser + session level): agent recv.
@@ -519,5 +520,22 @@ example : ∃ st', run { codec := ⟨fun _ _ => false, fun _ _ _ => none, fun _ 
     `DzOK` literally - so `run_total`, `Feasible`, ... apply to exactly the model instance the correspondence validates -/
 theorem driver_params_meet_DzOK (d : Flute.Drv.Orecv.DState) (toi base : Nat) :
     Nonempty (DzOK (d.params.forObj toi base)) := ⟨Flute.Drv.Orecv.drv_params_dzOK d toi base⟩
+
+/-- **the session shell over the object machines never panics / hangs** (`ObjSess`: completed / error gates, create + attach to the
+    first FDT instance listing the TOI, FDT completion over all objects, check_object_state + Drop, time-out sweep, Drop of the receiver):
+    every ObjectReceiver it ever creates satisfies `TInv`, so `Sess.run` returns.  Input-side hypotheses only -/
+theorem objsess_run_total (PP : ObjSess.SParams) (D : ∀ toi base, Nonempty (DzOK (PP.forObj toi base)))
+    (cfg : ObjSess.SCfg) (hmax : cfg.maxSize < 2 ^ 63) (ops : List ObjSess.SOp) (hwf : ∀ op ∈ ops, ObjSess.SWfOp op) :
+    ∃ S', ObjSess.Sess.run PP { cfg := cfg } ops = .ok S' := by
+  obtain ⟨S', h, _⟩ := ObjSess.sess_run_total (fun t b => Classical.choice (D t b)) ops hwf
+    (S := { cfg := cfg }) ⟨by simp, by simp, hmax⟩
+  exact ⟨S', h⟩
+
+/-- ... in particular for the session model the `orecv` driver EXECUTES (its own parameters, any `zmap` table, any writer plan): on
+    packets / FDT entries in range the model side of the correspondence never answers with a fault -/
+theorem driver_session_total (d : Flute.Drv.Orecv.DState) (cfg : ObjSess.SCfg) (hmax : cfg.maxSize < 2 ^ 63)
+    (ops : List ObjSess.SOp) (hwf : ∀ op ∈ ops, ObjSess.SWfOp op) :
+    ∃ S', ObjSess.Sess.run d.params { cfg := cfg } ops = .ok S' :=
+  objsess_run_total d.params (fun toi base => driver_params_meet_DzOK d toi base) cfg hmax ops hwf
 
 end Flute.Props.C04.Obj
